@@ -274,19 +274,37 @@ def generate_property(
     return lines, type_name
 
 
-def generate_name(name_context: str, types: TypeData) -> str:
+def _is_name_taken(name: str, types: TypeData, spec: model.LSPModel) -> bool:
+    # A name is taken if a type was already generated with it, or if the spec
+    # declares it (the class for that declaration may not be generated yet).
+    return bool(
+        types.get_by_name(name)
+        or _get_struct(name, spec)
+        or _get_enum(name, spec)
+        or any(alias.name == name for alias in spec.typeAliases)
+    )
+
+
+def generate_name(name_context: str, types: TypeData, spec: model.LSPModel) -> str:
     # If name context has a '_' it is likely a property.
     # Try name generation using just the property name
+    all_parts = [to_upper_camel_case(p) for p in name_context.split("_") if p]
     parts = [to_upper_camel_case(p) for p in name_context.split("_") if len(p) > 3]
 
     # Try the last part of the name context
-    name = parts[-1]
-    if not types.get_by_name(name) and "info" in name_context.lower():
-        return name
+    if parts and "info" in name_context.lower():
+        name = parts[-1]
+        if not _is_name_taken(name, types, spec):
+            return name
 
     # Combine all parts and try again
     name = "".join(parts)
-    if not types.get_by_name(name):
+    if name and not _is_name_taken(name, types, spec):
+        return name
+
+    # Short parts were skipped above, include them to get a distinct name
+    name = "".join(all_parts)
+    if name and not _is_name_taken(name, types, spec):
         return name
 
     raise ValueError(f"Unable to generate name for {name_context}")
@@ -314,7 +332,7 @@ def generate_literal_type(
     if "_" not in name_context:
         name_context = f"{name_context}_{get_context_from_literal(literal)}"
 
-    literal.name = generate_name(name_context, types)
+    literal.name = generate_name(name_context, types, spec)
 
     usings = ["DataContract"]
     inner = []
@@ -578,7 +596,7 @@ def generate_class_from_variant_literals(
     types: TypeData,
     name_context: Optional[str] = None,
 ) -> str:
-    name = generate_name(name_context, types)
+    name = generate_name(name_context, types, spec)
     if types.get_by_name(name):
         raise ValueError(f"Name {name} already exists")
 
